@@ -7,6 +7,7 @@ TODO: Handle sys.argv
 
 import sys
 import io
+import threading
 import types
 from itertools import zip_longest
 from unittest.mock import patch
@@ -177,7 +178,13 @@ class Sandbox:
                            code, filename, kind, False, **meta)
         except TimeoutError as timeout_exception:
             _verif_sync('caller_timeout_handler')
+            # The abandoned thread will not clean up after itself (see _execute), so the
+            # caller undoes the patches and keeps whatever was printed so far.
             self._stop_patches()
+            if self._current_stdout:
+                current_stdout = self._current_stdout.pop()
+                if self._context:
+                    self.append_output(current_stdout.getvalue(), self._context[-1])
             self._capture_exception(timeout_exception, sys.exc_info(),
                                     code, filename)
             return self
@@ -211,6 +218,11 @@ class Sandbox:
         # This exception does not inherit from Exception and has to be caught separately
         except SystemExit as system_exit:
             _verif_sync('student_exit_handler')
+            if getattr(threading.current_thread(), 'abandoned', False):
+                # This thread was interrupted because it ran out of time. The caller has
+                # already reported the timeout and restored the patches (and may be
+                # running something else by now), so just unwind.
+                return self
             self._stop_mocking(context)
             self._capture_exception(system_exit, sys.exc_info(),
                                     code, filename)
